@@ -314,6 +314,29 @@ pub fn register(m: &mut HashMap<&'static str, OpFn>) {
             Err(_) => vec!["err".into()],
         }
     });
+    // the two digest parameters of the hazmat prehashed functions are independent: CtxDigest = pass-through (first 64
+    // bytes of its input), MsgDigest = SHA-512 over msg.  esk64 msg ctx|~ -> vk, sig, verify with the same pair of types,
+    // verify with <Sha512, Sha512> (a different challenge hash: must fail)
+    m.insert("sig.rawph_mixed", |a| {
+        let esk = ExpandedSecretKey::from_bytes(&a.b64(0));
+        let vk = VerifyingKey::from(&esk);
+        let msg = a.bytes(1);
+        let ctxv;
+        let ctx = if a.tok(2) == "~" {
+            None
+        } else {
+            ctxv = a.bytes(2);
+            Some(ctxv.as_slice())
+        };
+        match hazmat::raw_sign_prehashed::<PassThrough64, Sha512>(&esk, sha_digest(&msg), &vk, ctx) {
+            Ok(s) => {
+                let v1 = hazmat::raw_verify_prehashed::<PassThrough64, Sha512>(&vk, sha_digest(&msg), ctx, &s);
+                let v2 = hazmat::raw_verify_prehashed::<Sha512, Sha512>(&vk, sha_digest(&msg), ctx, &s);
+                vec![hex(vk.as_bytes()), hex(&s.to_bytes()), res(v1), res(v2)]
+            }
+            Err(_) => vec!["err".into()],
+        }
+    });
     m.insert("sig.esk", |a| {
         // ExpandedSecretKey from seed / from 64 bytes / from slice
         let b = a.bytes(0);
